@@ -124,7 +124,7 @@ def _(c):
     c.returns("val")
     c.functional = True
     c.fn_name = "can_assign"
-    c.fieldspec("_known_subvals", "opt[pair[set,seq]]")
+    c.fieldspec("_known_subvals", "opt[pair[hset,seq]]")
     c.requires("wf_union(self)", name="self_well_formed")
     c.requires("implies(not isa(other, TypeVarValue), wf_union(other) and implies(isa(other, AnnotatedValue), wf_union(other.value)))", name="other_well_formed")
     # data-structure invariant of the literal fast path (established by _get_known_subvals)
